@@ -13,7 +13,9 @@ TIERS = {"quick": {"cases": 2400, "wall": 100, "min_nontrivial": 1200},
 RULE = ("generator -> valid program P rendered in fixed form (labels anywhere in columns 1-5, continuation mark from "
         "'&+$*123456789xX.#', wrap column in {40,50,60,72} with extra random breaks, statements cut at arbitrary "
         "characters incl. inside names and character literals, comment lines C/c/*/! between statements and between "
-        "continuation lines, inline ! comments, ';' joins, blank or '0' in column 6 of initial lines). Oracle: the "
+        "continuation lines, inline ! comments, ';' joins, blank or '0' in column 6 of initial lines, a break right after "
+        "the leading tokens, labels with a blank between their digits); one case in five is read from a file named "
+        "*.f/.for/.F/.f77/.ftn through FortranFileReader. Oracle: the "
         "reader's detected format is fixed, and shape(tree(F(P))) == shape(tree(free(P))) (case-folded outside "
         "character literals). Detector-only cases: random free-form renderings whose first statement starts in columns "
         "1-5 must be detected as free form. non-trivial = rendering with >=1 continuation line; distinct by SHA-1 of text")
@@ -37,6 +39,9 @@ def make_payload(rng, idx, tier):
     else:
         meta["mode"] = "fixed"
         meta["li"] = rng.randrange(len(FIXED))
+        # one case in five reads the rendering from a file whose extension says fixed form (FortranFileReader decides
+        # the form from the name, the string reader from the content)
+        meta["ext"] = rng.choice([".f", ".for", ".F", ".f77", ".ftn", ".FOR"]) if rng.random() < 0.2 else None
     return program_payload(P, **meta)
 
 
@@ -55,7 +60,21 @@ def one(P, std, payload):
         return None, text
     o = FIXED[payload["li"]]
     text, info = fixedform.render(P, random.Random(payload["layout_seed"]), o)
-    rd = fp.FortranStringReader(text, ignore_comments=True)
+    tmpdir = None
+    if payload.get("ext"):
+        import os
+        import tempfile
+
+        tmpdir = tempfile.mkdtemp(prefix="vfc05_")
+        path = os.path.join(tmpdir, "unit" + payload["ext"])
+        with open(path, "w") as f:
+            f.write(text)
+        rd = fp.FortranFileReader(path, ignore_comments=True)
+        import shutil
+
+        shutil.rmtree(tmpdir, ignore_errors=True)     # the reader has read the file
+    else:
+        rd = fp.FortranStringReader(text, ignore_comments=True)
     if not rd.format.is_fixed:
         import re
 
